@@ -162,6 +162,35 @@ V = [
     ("C17", "F", "motion: stale sum", QS, "    s = psf.sum()\n", "    s = psf.sum()\n    psf[0, 0] += 1.0\n", "C17.D5.normalised"),
     ("C17", "F", "padding places the kernel at the bottom right", QS, "pad[:kH, :kW] = psf[:H, :W]", "pad[H - kH :, W - kW :] = psf[:H, :W]", "C17.D1.padding"),
     ("C17", "F", "CSR builder transposed", APP, "A_csr = _sp.csr_matrix((data, (rows, cols)), shape=(N, N))", "A_csr = _sp.csr_matrix((data, (cols, rows)), shape=(N, N))", "_build_bccb_csr"),
+    # ------------------------------------------------------------------ refactorings verified bit-identical by volunteers
+    # (file field = ("patch", diff under selftest/refactors, file to edit afterwards); old=None: the patch alone, must be silent)
+    ("C17", "S", "refactor R7: batched fft2/ifft2 over axes=(0,1), tuple roll", ("patch", "c17_R7_batched_fft.diff", QS), None, None, None),
+    ("C17", "S", "refactor R8: vectorised PSF / BCCB builders", ("patch", "c17_R8_vectorised_builders.diff", QS), None, None, None),
+    ("C07", "S", "refactor R1: modulus via np.square, triu/tril via boolean masks", ("patch", "c07_R1_lu.diff", LU), None, None, None),
+    ("C07", "S", "refactor R2: quaternion_lu with fancy-index swaps, tril extraction, P by fancy store", ("patch", "c07_R2_lu.diff", LU), None, None, None),
+    ("C17", "F", "R7 + conjugate dropped", ("patch", "c17_R7_batched_fft.diff", QS), "H_conj = np.conj(H_hat)[:, :, np.newaxis]",
+     "H_conj = H_hat[:, :, np.newaxis]", "C17.D2.fft"),
+    ("C17", "F", "R7 + channels 0 and 1 exchanged in the batched blur", ("patch", "c17_R7_batched_fft.diff", QS),
+     "Q_hat = fft2(Q[..., [0, 1, 2, 3]], axes=(0, 1))", "Q_hat = fft2(Q[..., [1, 0, 2, 3]], axes=(0, 1))", "apply_blur_fft: channel 0"),
+    ("C17", "F", "R7 + only three channels restored", ("patch", "c17_R7_batched_fft.diff", QS),
+     "Xq[..., :4] = np.real(ifft2(X_hat, axes=(0, 1)))", "Xq[..., :3] = np.real(ifft2(X_hat, axes=(0, 1)))[..., :3]",
+     "qslst_restore_fft: channel 3"),
+    ("C17", "F", "R7 + |H| + lambda", ("patch", "c17_R7_batched_fft.diff", QS), "denom = (np.abs(H_hat) ** 2) + lam",
+     "denom = np.abs(H_hat) + lam", "C17.D2.fft"),
+    ("C17", "F", "R7 + transfer function not broadcast per channel (H of channel mixes)", ("patch", "c17_R7_batched_fft.diff", QS),
+     "B[..., :4] = np.real(ifft2(Q_hat * H_hat, axes=(0, 1)))", "B[..., :4] = np.real(ifft2(Q_hat * H_hat * H_hat, axes=(0, 1)))", "C17.D2.fft"),
+    ("C07", "F", "R2 + gather instead of scatter", ("patch", "c07_R2_lu.diff", LU), "L_permuted[perm, :] = L", "L_permuted[:, :] = L[perm, :]",
+     "two-output: L row origin mismatch"),
+    ("C07", "F", "R2 + P transposed", ("patch", "c07_R2_lu.diff", LU), "P[np.arange(m), perm] = one", "P[perm, np.arange(m)] = one",
+     "three-output: row origin of L/U differs from P"),
+    ("C07", "F", "R2 + only the work rows swapped", ("patch", "c07_R2_lu.diff", LU), "            perm[[j, p]] = perm[[p, j]]\n", "", "C07.D1.permutation"),
+    # ------------------------------------------------------------------ blind mutants written by volunteers (diff alone, must be reported)
+    ("C17", "F", "blind w1/A: padding", ("patch", "mut_c17_w1_A.diff", QS), None, None, "C17.D1.padding"),
+    ("C17", "F", "blind w1/B: CSR builder", ("patch", "mut_c17_w1_B.diff", APP), None, None, "_build_bccb_csr"),
+    ("C07", "F", "blind w1/A", ("patch", "mut_c07_w1_A.diff", LU), None, None, "rule=C07."),
+    ("C07", "F", "blind w1/B: guard", ("patch", "mut_c07_w1_B.diff", LU), None, None, "division by an untested pivot"),
+    ("C07", "F", "blind w2/A: pivot search over rows j..N", ("patch", "mut_c07_w2_A.diff", LU), None, None, "C07.D2.pivot"),
+    ("C07", "F", "blind w2/B: gather instead of scatter", ("patch", "mut_c07_w2_B.diff", LU), None, None, "two-output: L row origin mismatch"),
 ]
 
 
@@ -174,9 +203,17 @@ def run_variant(v):
         shutil.copytree("/repo/quatica", os.path.join(T, "quatica"), ignore=shutil.ignore_patterns("__pycache__"))
         shutil.copytree("/repo/applications/image_deblurring", os.path.join(T, "applications/image_deblurring"),
                         ignore=shutil.ignore_patterns("__pycache__", "*.png", "*.jpg"))
+        if isinstance(rel, tuple):
+            _, diff, rel = rel
+            pr = subprocess.run(["patch", "-p1", "-s", "-i", os.path.join(os.path.dirname(os.path.abspath(__file__)), "refactors", diff)],
+                                cwd=T, capture_output=True, text=True)
+            if pr.returncode != 0:
+                return "BROKEN", f"patch {diff} does not apply: {pr.stdout[-200:]}"
         p = os.path.join(T, rel)
         s = open(p).read()
-        if is_re:
+        if old is None:
+            s2 = s
+        elif is_re:
             n = len(re.findall(old, s))
             s2 = re.sub(old, new, s)
             if n < 1:
